@@ -28,6 +28,10 @@ def translate():
 
     out = registry.generate("SaveTable")
     out.update(registry.generate("Transitions"))  # Properties/C19 imports C01's theorems
+    # Audit/C19 also audits the compositions with C05 / C17 (Properties/C19C05) and C20 (Properties/C19C20), whose
+    # theorems are stated about the schemas and the margin formulas of the source
+    out.update(registry.generate("Schemas"))
+    out.update(registry.generate("Margins"))
     return out
 
 
@@ -57,7 +61,7 @@ DOC_TABLE = [
 DOC_OTD = [["left_disparity.tif", "."], ["right_disparity.tif", "."], ["left_confidence_measure.tif", "."],
            ["right_confidence_measure.tif", "."], ["left_validity_mask.tif", "."], ["right_validity_mask.tif", "."],
            ["config.json", "./cfg"], ["command_line.txt", "./cfg"]]
-DOC_MAIN = {"writesRightDisp": True, "addsMargins": True}
+DOC_MAIN = {"writesRightDisp": True, "addsMargins": True, "runWritesIndicator": True}
 
 
 def translator_cross_check(report, status, facts):
@@ -295,6 +299,22 @@ def check_scenario(ctx, report, sc, facts, label=""):
                         {"left": mc["saved_left"], "right": mc["saved_right"]})
     if mc["has_margins"] != ("margins" in saved):
         report.disagree("main:margins_key", case, "margins" in saved, mc["has_margins"])
+    # the dictionary model of `main` (Model/SaveConfig.lean; theorems in Properties/C19C05.lean, C19C20.lean): the whole
+    # saved file = check_conf's result, `indicator` of the confidence steps as `run` writes it, margins of C20's model
+    # of the check callbacks on the checked pipeline — compared exactly, key order included
+    if res.get("checked_wire") is not None and res.get("saved_wire") is not None:
+        ms = ctx.lean.call("C20.saved_config", facts=mainf, cfg=res["checked_wire"], rows=sc["rows"], cols=sc["cols"])
+        report.count("saved_config_compared")
+        if not ms["ok"] or ms["saved"] != res["saved_wire"]:
+            report.disagree("main:saved_config", case, res["saved"], ms.get("saved"))
+        # specification on the implementation's file: its margins are the expected margins of *its own* pipeline
+        sp2 = ctx.lean.call("C20.saved_config", facts=mainf, cfg=res["saved_wire"], rows=sc["rows"], cols=sc["cols"])
+        saved_margins = dict(res["saved_wire"]["o"]).get("margins") if isinstance(res["saved_wire"], dict) else None
+        if sp2["expected_margins"] != saved_margins:
+            fail(report, "config_has_margins", "margins_not_expected_of_saved_pipeline", case, brief(res),
+                 f"saved margins {saved.get('margins')} are not the documented margins of the saved pipeline")
+        else:
+            report.hit("config_has_margins:expected_of_saved_pipeline")
     # ---------------- feeding the saved file back
     rf = res["refeed"]
     accepted = rf["error"] is None or rf["checked"] is not None
